@@ -82,6 +82,70 @@ fn small_ops(n: usize, is_take: bool) -> Vec<ROp> {
     v
 }
 
+/// `io::Cursor` as a `Buf`: every data length 0..=4 x every interesting position (inside, at the end, beyond it,
+/// around 2^32, 2^63 and u64::MAX -- positions that do not fit usize on a 32-bit target) x bare / under Take /
+/// inside Chain x single ops with ordinary and near-usize::MAX counts x call path.
+fn cursors(a: &Args, o: &mut Obs) {
+    let shard = a.usize("shard", 0);
+    let nshards = a.usize("nshards", 1).max(1);
+    let mut idx = 0usize;
+    for n in 0..=4usize {
+        let v = rd::data(n, 41 + n as u64);
+        let mut pos: Vec<u64> = (0..=n as u64 + 2).collect();
+        for base in [1u64 << 32, 1u64 << 33, 1u64 << 63, 3u64 << 32] {
+            for k in 0..=n as u64 + 1 {
+                pos.push(base + k);
+            }
+            pos.push(base - 1);
+        }
+        pos.extend([u32::MAX as u64 - 1, u32::MAX as u64, u64::MAX - 1, u64::MAX, u64::MAX - n as u64, i64::MAX as u64]);
+        for &p in &pos {
+            let leaf = Spec::Cursor(p, v.clone());
+            let m = leaf.model().len();
+            let wrappers: Vec<Spec> = vec![
+                leaf.clone(),
+                Spec::Take(m + 1, false, Box::new(leaf.clone())),
+                Spec::Take(usize::MAX, true, Box::new(leaf.clone())),
+                Spec::Chain(false, Box::new(leaf.clone()), Box::new(Spec::Slice(vec![9, 8]))),
+                Spec::Chain(true, Box::new(Spec::Slice(vec![7])), Box::new(leaf.clone())),
+            ];
+            for (wi, spec) in wrappers.iter().enumerate() {
+                idx += 1;
+                if idx % nshards != shard {
+                    continue;
+                }
+                let case = format!("curs:{n}:{p}:{wi}");
+                vharness::out::journal(&case);
+                let ml = spec.model().len();
+                let is_take = matches!(spec, Spec::Take(..));
+                let mut ops = small_ops(ml, is_take);
+                for h in [usize::MAX, usize::MAX - 1, usize::MAX - ml, usize::MAX - p.min(64) as usize, usize::MAX / 2 + 1, usize::MAX / 2] {
+                    ops.push(ROp::Adv(h));
+                    ops.push(ROp::CopyBytes(h));
+                }
+                let pc = if p <= n as u64 { "in" } else if p < (1 << 32) { "past" } else { "beyond-u32" };
+                o.cell(format!("curs|len{n}|{pc}|w{wi}"));
+                let mut dg = 0u64;
+                for (i, op1) in ops.iter().enumerate() {
+                    // a first op that moves the cursor, then the op under test
+                    for pre in [None, Some(ROp::Adv(1.min(ml))), Some(ROp::GetU8)] {
+                        if pre.is_some() && ml == 0 {
+                            continue;
+                        }
+                        let seq: Vec<ROp> = pre.iter().cloned().chain(std::iter::once(op1.clone())).collect();
+                        let fin = if i % 4 == 0 { Final::IntoIter } else { Final::Dismantle };
+                        let h = rd::run_case(o, spec, &seq, (i + wi) % 3, fin, &case);
+                        dg = vharness::rng::fnv_u64(dg, h);
+                    }
+                }
+                if a.flag("digest") {
+                    println!("DIGEST curs {n}:{p}:{wi} {dg:016x}");
+                }
+            }
+        }
+    }
+}
+
 fn frag(a: &Args, o: &mut Obs) {
     let shard = a.usize("shard", 0);
     let nshards = a.usize("nshards", 1).max(1);
@@ -164,7 +228,8 @@ fn implementors(bytes: &[u8], cut1: usize, cut2: Option<usize>, extra_tail: &[u8
         // an io::Cursor positioned strictly beyond its data holds nothing
         extra.push(("CursorPast", Spec::Cursor(5, vec![0xAA; 2])));
         extra.push(("CursorPastEmpty", Spec::Cursor(1, Vec::new())));
-        extra.push(("CursorMax", Spec::Cursor(usize::MAX, vec![0xAA; 2])));
+        extra.push(("CursorMax", Spec::Cursor(u64::MAX, vec![0xAA; 2])));
+        extra.push(("CursorWrap32", Spec::Cursor((1u64 << 32) + 1, vec![0xAA; 24])));
     }
     let mut v = vec![
         ("slice", Spec::Slice(all.clone())),
@@ -180,6 +245,8 @@ fn implementors(bytes: &[u8], cut1: usize, cut2: Option<usize>, extra_tail: &[u8
         ("Chain", Spec::Chain(false, Box::new(Spec::Slice(all[..c1].to_vec())), Box::new(Spec::Bytes(1, all[c1..].to_vec())))),
         ("ChainSeg", Spec::Chain(true, Box::new(seg(0)), Box::new(Spec::Slice(Vec::new())))),
         ("Take", Spec::Take(n, false, Box::new(Spec::Chain(false, Box::new(seg(1)), Box::new(Spec::Slice(vec![0x55; 3])))))),
+        // the value is followed by a practically endless source: the length arithmetic of Chain saturates
+        ("TakeChainEndless", Spec::Take(n, false, Box::new(Spec::Chain(false, Box::new(Spec::Slice(all.clone())), Box::new(Spec::Endless))))),
     ];
     v.extend(extra);
     v
@@ -352,6 +419,7 @@ fn main() {
     match a.mode.as_str() {
         "readers" => readers(&a, &mut o),
         "frag" => frag(&a, &mut o),
+        "cursors" => cursors(&a, &mut o),
         "getters" => getters_tbl(&a, &mut o),
         "writers" => vharness::bufx::wrt::writers(&a, &mut o),
         "faults" => vharness::bufx::faults::faults(&a, &mut o),
